@@ -169,6 +169,38 @@ def check(run):
                                   f"handler {'/'.join(h.exc)} absorbs {describe(body_fallible[0])}",
                                   f"an exception of {describe(body_fallible[0])} is caught by "
                                   f"`except {'/'.join(h.exc)}` and not re-raised", "handler re-raises")
+    # the imputers the explainers build by default stand between the explainer and two of its callbacks (model,
+    # storage): an exception they raise inside impute must come out of impute
+    for name in ("MarginalImputer", "DefaultImputer"):
+        K = prog.find_class(name)
+        if K is None or prog.find_method(K, "impute")[1] is None:
+            continue
+        try:
+            # the objects handed to the constructor (model function, storage) are the user's: calls on them can fail
+            cbi = {f for f, t in prog.summarise(K, "__init__").fields.items()
+                   if any(x[0] == "param" for x in ir.subterms(t)) and "." not in f}
+            cbi |= callback_fields(field_roles(prog, K))
+            si = prog.summarise(K, "impute")
+        except ir.Unsupported:
+            continue
+        fqi = f"{name}.impute"
+        run.analysed_fn(fqi)
+
+        def user_call(e):
+            return isinstance(e, ir.Call) and isinstance(e.callee, str) and e.callee.startswith("self.") and \
+                e.callee[5:].split(".")[0] in cbi
+        for ev, ctx in walk(si.events, structural=True):
+            if isinstance(ev, ir.Try):
+                inside = [e for e, _ in walk(ev.body) if user_call(e)]
+                if not inside:
+                    continue
+                for h in ev.handlers:
+                    reraises = bool(h.body) and isinstance(h.body[-1], ir.Raise)
+                    run.check(reraises, "PROPAGATE", f"{fqi}:try", f"{si.path}:{h.line}", fqi,
+                              f"handler {'/'.join(h.exc)} absorbs {describe(inside[0])}",
+                              f"an exception of {describe(inside[0])} inside the imputer is caught by "
+                              f"`except {'/'.join(h.exc)}` and not re-raised: the explainer goes on as if the callback had "
+                              f"answered", "handler re-raises")
     # a `return` / `break` / `continue` inside a `finally` block discards the exception in flight: a failing
     # callback (or metric, model, storage) would then look like a normal return and the observation is committed
     import ast
@@ -253,7 +285,7 @@ def check(run):
     if not lazy:
         run.ok("PROPAGATE", "package.lazy-callbacks", f"{n_lazy} map / filter / itertools calls: none drives a user callback")
     from .c06 import depends_on
-    depends_on(run, "C05", {"AVERAGE"}, only=lambda rule, inst: "acc-init" in inst)     # accumulators of a run are not the published estimate
+    depends_on(run, "C05", {"AVERAGE"}, only=lambda rule, inst: "acc-init" in inst or inst.endswith(".result"))     # accumulators of a run are not the published estimate
     run.need(n_fallible >= 12, f"only {n_fallible} fallible call sites found (confirmed minimum 12)")
     run.notes["fallible_call_sites"] = n_fallible
 
